@@ -283,7 +283,9 @@ fn rate_job(op: Op1, form: Form, len: usize, devs: u32) -> Job {
         _ => {}
       }
       // ---- exact timed model when the executor ran promptly
-      if ch.deviations() == 0 && r.world.ready_len() == 0 {
+      // (a zero-length window has no timed model of its own: the generic clauses decide)
+      let zero_window = matches!(&op, Op1::Debounce(0) | Op1::ThrottleTime(0, _));
+      if ch.deviations() == 0 && r.world.ready_len() == 0 && !zero_window {
         let exp = prompt_model(&op, &evs);
         if exp != got {
           fail(
@@ -322,6 +324,11 @@ pub fn plan(tier: Tier) -> Plan {
     ops.push(Op1::ThrottleBy(e));
     ops.push(Op1::ThrottleCalls(e));
   }
+  // boundary: zero-length windows
+  ops.push(Op1::Debounce(0));
+  for e in [Edge::Leading, Edge::Tailing, Edge::All] {
+    ops.push(Op1::ThrottleTime(0, e));
+  }
   ops.push(Op1::BufferWithCountAndTime(1, 2));
   ops.push(Op1::BufferWithCountAndTime(3, 1));
   let mut jobs = vec![];
@@ -339,7 +346,7 @@ pub fn plan(tier: Tier) -> Plan {
       prop: "C09".into(),
       tier: tier_name(tier),
       engine: "E1 opseq".into(),
-      rule: "debounce(w), throttle_time(w, leading|tailing|all), throttle with a per-item window, sample(interval(w)), buffer_with_time(w), buffer_with_count_and_time(n,w), w in {1,2} ticks, over a hot source: every sequence up to the length bound over {next (fresh value), complete, error, advance one tick, run the i-th ready task} (so gaps shorter than, equal to and longer than the window; both orders of a same-instant source event and timer via one deviation), then 4 more ticks; generic clauses under every run order (only source items, each at most once, source order, buffers non-empty and within the count limit, concatenation = source on completion, error forwarded), exact timed list model whenever no deviation occurred; non-trivial = something was delivered".into(),
+      rule: "debounce(w), throttle_time(w, leading|tailing|all), throttle with a per-item window, sample(interval(w)), buffer_with_time(w), buffer_with_count_and_time(n,w), w in {1,2} ticks (debounce and throttle_time also with a zero-length window), over a hot source: every sequence up to the length bound over {next (fresh value), complete, error, advance one tick, run the i-th ready task} (so gaps shorter than, equal to and longer than the window; both orders of a same-instant source event and timer via one deviation), then 4 more ticks; generic clauses under every run order (only source items, each at most once, source order, buffers non-empty and within the count limit, concatenation = source on completion, error forwarded), exact timed list model whenever no deviation occurred; non-trivial = something was delivered".into(),
       bounds: json!({"len_prompt": len0, "len_any_order": len, "deviations": devs, "operators": ops.len()}),
       assumptions: vec![
         "a throttle window runs from the item that opened it; the next window opens with the first item after it closed".into(),
